@@ -33,7 +33,9 @@ fn dec(t: &[String]) -> Option<C> {
     Some(C { ty, regions, bin, ops })
 }
 fn valid(c: &C) -> bool {
+    // the observable is the whole matrix after every op: keep (total bins) x (ops) enumerable
     c.bin >= 1 && c.regions.iter().all(|r| r.start < r.end && (r.end - r.start).div_ceil(c.bin) <= 3000)
+        && c.regions.iter().map(|r| (r.end - r.start).div_ceil(c.bin)).sum::<u64>() * (c.ops.len() as u64 + 1) <= 12_000
         && c.ops.iter().all(|o| match o { Op::Tag(t, k) => t.start < t.end && (c.ty == 0 || *k >= 0), Op::Reset => true })
 }
 
